@@ -222,3 +222,62 @@ def nondet(ctx):
                         res.fail(Finding("R-NONDET", "R-NONDET/%s/clock-wrapper/%s" % (f.path, wrapper), "%s (reads the clock) is called from an unlisted function" % wrapper, f, c.term["span"]))
     res.floor("nondeterministic source sites", n, ctx.table("floors").get("nondet_sites", 0))
     return res
+
+
+INT_BITS = {"u8": 8, "u16": 16, "u32": 32, "u64": 64, "u128": 128, "usize": 64, "i8": 8, "i16": 16, "i32": 32, "i64": 64, "i128": 128, "isize": 64}
+
+
+def narrow(ctx):
+    """R-NARROW (C17): the timestamp conversions saturate instead of failing or wrapping:
+    no narrowing integer cast, no unchecked SystemTime arithmetic, no unwrap of a fallible time operation."""
+    import re
+    res = RuleResult("R-NARROW", "timestamp <-> SystemTime conversion is total and saturating: every integer cast in it is widening (a narrowing `as` wraps silently), Duration/SystemTime arithmetic goes through checked_*/saturating_* forms, and no fallible time operation is unwrapped")
+    tbl = ctx.table("narrow")
+    mods = tbl.get("modules", ["internal::timestamp::"])
+    n = 0
+    for f in ctx.fx.fns.values():
+        if not any(f.path.startswith(m) or ("<" + m) in f.path for m in mods):
+            continue
+        for bb, blk in enumerate(f.blocks):
+            if blk["cleanup"]:
+                continue
+            for st in blk["stmts"]:
+                if st["s"] == "assign" and st["rv"]["r"] == "cast" and "IntToInt" in st["rv"]["kind"]:
+                    n += 1
+                    o = st["rv"]["op"]
+                    src = None
+                    if o["k"] in ("copy", "move"):
+                        src = o["place"].get("ty") if o["place"]["proj"] else f.locals[o["place"]["local"]]["s"]
+                    elif o["k"] == "const":
+                        src = o.get("ty")
+                    dst = st["rv"]["ty"]
+                    sb, db = INT_BITS.get(src), INT_BITS.get(dst)
+                    fits = False
+                    if sb is not None and db is not None and sb > db:
+                        from bounds import MirBounds
+                        ub = MirBounds(ctx, f).operand(o)
+                        fits = ub is not None and ub < (1 << db)
+                    if sb is not None and db is not None and sb > db and fits:
+                        res.ok({"function": f.path, "cast": "%s -> %s" % (src, dst), "fits_because": "operand bounded by %d" % ub}, nontrivial=True)
+                    elif sb is not None and db is not None and sb > db:
+                        res.fail(Finding("R-NARROW", "R-NARROW/%s/narrowing-cast/%s-to-%s" % (f.path, src, dst), "integer cast from %s to %s truncates: an out-of-range time would wrap to an unrelated instant instead of saturating" % (src, dst), f, st["span"]))
+                    else:
+                        res.ok({"function": f.path, "cast": "%s -> %s" % (src, dst)})
+            t = blk["term"]
+            if t["t"] == "call":
+                nm = callee_name(t) or ""
+                short = nm.split("::")[-1]
+                if re.search(r"(SystemTime|Duration|Instant).*as std::ops::(Add|Sub|AddAssign|SubAssign)", nm) or (short in ("add", "sub", "add_assign", "sub_assign") and re.search(r"time::(SystemTime|Duration)", nm)):
+                    n += 1
+                    res.fail(Finding("R-NARROW", "R-NARROW/%s/unchecked-time-arithmetic/%s" % (f.path, short), "%s panics on overflow; the conversion must use checked_add/checked_sub with a fallback" % nm, f, t["span"]))
+                if short in ("unwrap", "expect") and t["args"]:
+                    from prov import Prov
+                    a = Prov(f).operand(t["args"][0])
+                    if re.search(r"duration_since|checked_add|checked_sub|checked_mul|try_from|try_into", a):
+                        n += 1
+                        res.fail(Finding("R-NARROW", "R-NARROW/%s/unwrap-of-fallible-time-op" % f.path, "unwrap() of %s panics for out-of-range times" % a[:80], f, t["span"]))
+                if short in ("saturating_add", "saturating_sub", "saturating_mul", "checked_add", "checked_sub", "unwrap_or", "duration_since"):
+                    n += 1
+                    res.ok({"function": f.path, "total_operation": short})
+    res.floor("conversion operations", n, ctx.table("floors").get("narrow_sites", 0))
+    return res
